@@ -73,6 +73,22 @@ class SymBuf:
                 raise Unsupported("SymBuf slice bound")
         return SymBuf(substr(self.s, i.start, i.stop))
 
+    def __delitem__(self, i: Any) -> None:
+        # `del buf[a:b]`: the buffer becomes buf[:a] + buf[b:]
+        if not isinstance(i, slice) or i.step is not None:
+            raise Unsupported("SymBuf deletion index")
+        head = substr(self.s, None, i.start) if i.start is not None else BStr.const(b"")
+        tail = substr(self.s, i.stop, None) if i.stop is not None else BStr.const(b"")
+        self.s = B.bconcat(head, tail)
+
+    def __setitem__(self, i: Any, v: Any) -> None:
+        if not isinstance(i, slice) or i.step is not None:
+            raise Unsupported("SymBuf assignment index")
+        m = v.s if isinstance(v, SymBuf) else BStr.lift(v)
+        head = substr(self.s, None, i.start) if i.start is not None else BStr.const(b"")
+        tail = substr(self.s, i.stop, None) if i.stop is not None else BStr.const(b"")
+        self.s = B.bconcat(B.bconcat(head, m), tail)
+
     def extend(self, more: Any) -> None:
         m = more.s if isinstance(more, SymBuf) else BStr.lift(more)
         self.s = B.bconcat(self.s, m)
